@@ -94,6 +94,7 @@ fn main() {
         replay(&prop, f);
     }
     let thorough = cli.tier == "thorough";
+    let mut rep = Report::new(&prop, &cli.tier, "vf_lat");
     let tab = table::table();
 
     // plan: (entry, shard, nshards, weight)
@@ -115,7 +116,7 @@ fn main() {
             }
             let w = weight(&groups);
             lookups += groups.iter().filter(|g| g.table_lookup).map(|g| g.dims.iter().map(|d| *d as u64).product::<u64>()).sum::<u64>();
-            let nsh = if w > 1_500_000 { threads } else { 1 };
+            let nsh = if w > 150_000 { threads } else { 1 };
             sizes.insert(
                 e.job.section(),
                 json!({"p": [p.k, p.e, p.l], "groups": groups.iter().map(|g| json!({"name": g.name, "dims": g.dims})).collect::<Vec<_>>(), "cases": w}),
@@ -149,7 +150,6 @@ fn main() {
         }
     });
 
-    let mut rep = Report::new(&prop, &cli.tier, "vf_lat");
     let (rule, expl) = texts(&prop);
     rep.rule = rule.into();
     rep.explanation = expl.into();
